@@ -72,11 +72,30 @@ struct SynCoeff : DensityProfileCoefficients {
     double getAlphaJump() const override { return 0.0; }
 };
 
+struct SynSource : SourceTerm {
+    const Fields& f;
+    explicit SynSource(const Fields& ff)
+        : f(ff)
+    {
+    }
+    double rhs_f(const double& r, const double& t, const double&, const double&) const override { return 1.0 + 0.01 * f.nodeOf(r, t); }
+};
+struct SynBoundary : BoundaryConditions {
+    const Fields& f;
+    explicit SynBoundary(const Fields& ff)
+        : f(ff)
+    {
+    }
+    double u_D(const double& r, const double& t, const double&, const double&) const override { return 5.0 + 0.02 * f.nodeOf(r, t); }
+    double u_D_Interior(const double& r, const double& t, const double&, const double&) const override { return -3.0 - 0.02 * f.nodeOf(r, t); }
+};
+
 static LD frac(const mj::Value& w) { return (LD)w[0].dbl() / (LD)w[1].dbl(); }
 
 struct Instance {
     int nr, nt, nc, N;
     bool dir;
+    double M, detScale; // angular units per circle; real |det DF| = integer det * detScale
     Fields F;
     std::vector<std::vector<LD>> A; // dense table, node = ir * nt + it
     std::vector<std::vector<int>> lines; // node lists in sweep order
@@ -95,6 +114,8 @@ static Instance load(const mj::Value& t)
     for (int j = 0; j < I.nt; j++)
         M += t["k"][j].dbl();
     const double u = 2 * M_PI / M;
+    I.M        = M;
+    I.detScale = 1.0 / (u * u);
     I.F.nt = I.nt;
     I.F.rad.resize(I.nr);
     I.F.ang.resize(I.nt + 1);
@@ -383,6 +404,47 @@ int main(int argc, char** argv)
                             }
                         }
                         nops++;
+                    }
+                }
+            }
+            else if (what == "rhs") {
+                // build_rhs_f + discretize_rhs_f on level 0 and on the coarse level (cache derived from the finer one), cached and not
+                for (int cdg = 0; cdg < 2 && fail.empty(); cdg++) {
+                    GMGPolar G(std::make_unique<SynGeometry>(I.F), std::make_unique<SynCoeff>(I.F), std::make_unique<SynBoundary>(I.F),
+                               std::make_unique<SynSource>(I.F));
+                    G.DirBC_Interior(I.dir);
+                    G.maxOpenMPThreads(threads);
+                    auto B = build(I, true, cdg == 1);
+                    const PolarGrid& g = B->level->grid();
+                    Vec f0(I.N);
+                    GMGPolarVerifAccess::build_rhs_f(G, *B->level, f0);
+                    GMGPolarVerifAccess::discretize_rhs_f(G, *B->level, f0);
+                    nops++;
+                    for (int c = 0; c < I.N && fail.empty(); c++) {
+                        int ir = c / I.nt;
+                        LD w = frac(t["rhsw"][c]) * (2 * M_PI / I.M) * (2 * M_PI / I.M); // units: h and k are multiples of u = 2 pi / M
+                        LD want = I.dirichlet[c] ? (ir == 0 ? -3.0 - 0.02 * c : 5.0 + 0.02 * c) : w * I.detScale * (1.0 + 0.01 * c);
+                        if (!(fabsl((LD)f0[gidx(g, c)] - want) <= 1e-12L * (1 + fabsl(want))))
+                            fail = "discretised rhs at node (" + std::to_string(ir) + "," + std::to_string(c % I.nt) + ") = " + std::to_string(f0[gidx(g, c)]) + ", specification " + std::to_string((double)want) + (cdg ? " (cached geometry)" : " (uncached geometry)");
+                    }
+                    if (fail.empty() && t["rhswc"].size() > 0 && cdg == 1) {
+                        auto cg = std::make_unique<PolarGrid>(coarseningGrid(g));
+                        auto cc = std::make_unique<LevelCache>(*B->level, *cg);
+                        Level L1(1, std::move(cg), std::move(cc), ExtrapolationType::COMBINED, true);
+                        const PolarGrid& g1 = L1.grid();
+                        Vec f1(g1.numberOfNodes());
+                        GMGPolarVerifAccess::build_rhs_f(G, L1, f1);
+                        GMGPolarVerifAccess::discretize_rhs_f(G, L1, f1);
+                        nops++;
+                        int ntc = I.nt / 2;
+                        for (int c = 0; c < g1.numberOfNodes() && fail.empty(); c++) {
+                            int ir = c / ntc, it = c % ntc, fine = 2 * ir * I.nt + 2 * it;
+                            bool dirichlet = ir == g1.nr() - 1 || (ir == 0 && I.dir);
+                            LD w = frac(t["rhswc"][c]) * (2 * M_PI / I.M) * (2 * M_PI / I.M);
+                            LD want = dirichlet ? (ir == 0 ? -3.0 - 0.02 * fine : 5.0 + 0.02 * fine) : w * I.detScale * (1.0 + 0.01 * fine);
+                            if (!(fabsl((LD)f1[g1.index(ir, it)] - want) <= 1e-12L * (1 + fabsl(want))))
+                                fail = "coarse-level discretised rhs at coarse node (" + std::to_string(ir) + "," + std::to_string(it) + ") = " + std::to_string(f1[g1.index(ir, it)]) + ", specification " + std::to_string((double)want);
+                        }
                     }
                 }
             }
